@@ -68,7 +68,7 @@ def _remix(rng, ops):
     ones roll the arena over many times), sometimes the producer's shared arena ("shared": anchored slices of an
     arena that outlives the call and is dropped at a random later moment)."""
     policy = rng.random()
-    one = rng.choice(METHODS + ["shared", "shared", "ahead", "ahead"]) if policy < 0.4 else None
+    one = rng.choice(METHODS + ["shared", "shared", "ahead", "ahead", "flaky"]) if policy < 0.4 else None
     out = []
     for op in ops:
         if op["ev"] == "feed":
@@ -76,7 +76,10 @@ def _remix(rng, ops):
             if one is not None:
                 op["m"] = one
             elif rng.random() < 0.25:
-                op["m"] = rng.choice(["shared", "ahead"])
+                op["m"] = rng.choice(["shared", "ahead", "flaky"])
+            if op["m"] == "flaky":
+                # read sizes of the producer's reader (0 = EINTR), cyclic
+                op["sched"] = rng.choice([[1, 0, 2, 0, 0, 3], [0, 1], [0, 0, 7], [100, 0, 1, 0], [3, 0]])
         out.append(op)
         if op["ev"] == "drain" and rng.random() < 0.3:
             out.append({"ev": "drop_shared"})
